@@ -13,6 +13,11 @@ CHECKS['C11'] = dict(engine='fsworld', design='DESIGN.md section 6, C11',
     note='Trusted: SimDisk/SimGFile stand-ins for os/shutil/open and tensorflow.io.gfile (differentially tested), the scheduler stand-in for concurrent.futures.thread, process-death crash model (no power-loss semantics). One open known finding (prefix ending in -, . or digit) is listed in known_findings.json.',
     technique='deterministic simulation: simulated disk with crash/torn-write/IO-error injection + crash-point sweeps + seeded async schedules vs retention model')
 
+CHECKS['C15'] = dict(engine='valueworld', design='DESIGN.md section 6, C15',
+    text='Seeded histories of FrozenDict API calls interleaved with injected foreign mutations of every plain dict the world holds (sources after freezing, unfreeze results, copy arguments, anything handed out); invariant after every operation: every FrozenDict ever created equals its birth-time deep copy and hashes as before. struct dataclasses: generated field layouts, replace/assign, pytree leaves, tree_map/vmap/grad reconstruction, jit retrace histories against a seen-keys model with a Python-side trace counter.',
+    note='There is no scheduler or I/O behind this property; what simulation contributes is the history dimension (aliasing created by earlier calls, mutated later). Lists/arrays stored as leaves are shared by design and never mutated by the harness. Trusted: jax pytree registry and jit cache as the environment.',
+    technique='deterministic simulation: seeded API-call histories with injected foreign mutations vs birth-snapshot invariant; jit trace-cache histories')
+
 NA = {
   'C02': 'variable tree mirrors module tree: relation between stateless init/apply/lazy_init/bind results on the same arguments; ' + PURE,
   'C06': 'lifted scan/vmap = loop/stack: configuration-space equivalence of a pure function; ' + PURE,
@@ -28,13 +33,14 @@ NA = {
 
 # claimed in DESIGN.md, check not built yet (moved to CHECKS as each engine lands)
 _P = 'planned as a claimed check in DESIGN.md section 6 but its engine is not built yet in this commit; not claimed until it runs'
-PENDING = {p: _P for p in ['C01', 'C03', 'C04', 'C05', 'C09', 'C15', 'C17', 'C18']}
+PENDING = {p: _P for p in ['C01', 'C03', 'C04', 'C05', 'C09', 'C17', 'C18']}
 
 ENGINES = [
-  dict(name='kernel', path='sim/kernel.py', serves_properties=['C11', 'C20'], kind_free_text='seed -> JSON plan -> event-log digest; worker processes; ddmin shrinker; replay; evidence'),
+  dict(name='kernel', path='sim/kernel.py', serves_properties=['C11', 'C15', 'C20'], kind_free_text='seed -> JSON plan -> event-log digest; worker processes; ddmin shrinker; replay; evidence'),
   dict(name='sched', path='sim/sched.py', serves_properties=['C11', 'C20'], kind_free_text='baton-passing deterministic thread scheduler; stand-ins for threading and concurrent.futures.thread'),
   dict(name='disk', path='sim/disk.py', serves_properties=['C11'], kind_free_text='in-memory disk with crash / torn-write / I/O-error injection; stand-ins for os, shutil, open, glob and tensorflow.io.gfile'),
   dict(name='fsworld', path='sim/props/c11.py', serves_properties=['C11'], kind_free_text='checkpoint directory histories with crashes, restarts, retries, sweeps and async saves against a retention-policy model'),
+  dict(name='valueworld', path='sim/props/c15.py', serves_properties=['C15'], kind_free_text='FrozenDict / struct dataclass call histories with foreign mutations and jit retrace histories'),
   dict(name='pipeworld', path='sim/props/c20.py', serves_properties=['C20'], kind_free_text='source -> PrefetchIterator / prefetch_to_device -> consumer under the thread scheduler with source fault injection'),
 ]
 
